@@ -142,3 +142,76 @@ package redis
 //@   ensures @slot-owner-for-writes inst != nil && !isROcmd(lower(str(req.body.Array[0].Text))) ==> result1 == nil && result0 == inst.Addr
 //@   ensures @master-strategy inst != nil && (redisopt(u.cfg.Config) == nil || redisopt(u.cfg.Config).ReadStrategy == 0) ==> result1 == nil && result0 == inst.Addr
 //@   loop 0 invariant inst != nil && len(candidates) <= 1 + rangeindex + 1 && 0 <= len(candidates) && (cap(candidates) == 0 || fresh(candidates))
+
+// ---- buffered reader (C10 C11): representation invariant ---------------------------
+
+//@ func (*sliceAlloc).alloc
+//@   prop C10 C11
+//@   requires d != nil && 0 <= n
+//@   modifies d.allocs
+//@   ensures @fresh-exact len(result) == n && cap(result) == n && fresh(result)
+
+//@ func (*sliceAlloc).Make
+//@   prop C10 C11
+//@   requires d != nil && 0 <= n
+//@   modifies d.allocs, d.buf
+//@   ensures @len len(ss) == n && cap(ss) == n
+//@   ensures @slab-disjoint n > 0 && n < 512 ==> disjoint(ss, d.buf)
+//@   ensures @not-old-memory n > 0 ==> (fresh(ss) || (base(ss) == base(old(d.buf)) && off(ss) == off(old(d.buf))))
+
+//@ func (*Reader).buffered
+//@   prop C10 C11
+//@   modifies nothing
+//@   ensures result == b.w - b.r
+
+//@ func (*Reader).fill
+//@   prop C10 C11
+//@   requires readerRI(b)
+//@   modifies b.r, b.w, b.err, b.buf[0:len(b.buf)]
+//@   ensures @ri readerRI(b) && len(b.buf) == old(len(b.buf)) && b.buf == old(b.buf)
+//@   ensures @progress result == nil ==> b.err == nil && b.w - b.r > old(b.w - b.r)
+//@   ensures @error result != nil ==> b.err != nil && result == b.err
+//@   ensures @keeps-window b.w - b.r >= old(b.w - b.r)
+
+//@ func (*Reader).ReadByte
+//@   prop C10 C11
+//@   requires readerRI(b)
+//@   modifies b.r, b.w, b.err, b.buf[0:len(b.buf)]
+//@   ensures @ri readerRI(b) && b.buf == old(b.buf)
+
+//@ func (*Reader).PeekByte
+//@   prop C10 C11
+//@   requires readerRI(b)
+//@   modifies b.r, b.w, b.err, b.buf[0:len(b.buf)]
+//@   ensures @ri readerRI(b) && b.buf == old(b.buf)
+
+//@ func (*Reader).Read
+//@   prop C10 C11
+//@   requires readerRI(b)
+//@   modifies b.r, b.w, b.err, b.buf[0:len(b.buf)], p[0:len(p)]
+//@   ensures @ri readerRI(b) && b.buf == old(b.buf)
+//@   ensures @count 0 <= result0 && result0 <= len(p)
+
+//@ func (*Reader).ReadSlice
+//@   prop C10 C11
+//@   requires readerRI(b)
+//@   modifies b.r, b.w, b.err, b.buf[0:len(b.buf)]
+//@   ensures @ri readerRI(b) && b.buf == old(b.buf)
+//@   ensures @line result1 == nil ==> len(result0) >= 1 && base(result0) == base(b.buf)
+//@   ensures @full-or-error result1 != nil ==> (len(result0) == 0 || result0 == b.buf)
+//@   loop 0 invariant readerRI(b) && b.buf == old(b.buf)
+
+//@ func (*Reader).ReadBytes
+//@   prop C10 C11
+//@   requires readerRI(b)
+//@   modifies all
+//@   ensures @ri readerRI(b)
+//@   ensures @line result1 == nil ==> len(result0) >= 1
+//@   loop 0 invariant readerRI(b) && 0 <= size
+
+//@ func (*Reader).ReadFull
+//@   prop C10 C11
+//@   requires readerRI(b) && 0 <= n
+//@   modifies all
+//@   ensures @ri readerRI(b)
+//@   ensures @exact result1 == nil && n > 0 ==> len(result0) == n
